@@ -1,6 +1,38 @@
 #!/venv/bin/python
-"""Prints the markdown detection table of DESIGN.md §8.6 from /verif/seeded/*/meta.json."""
-import json, glob, os
+"""Prints the markdown detection table of DESIGN.md §8.6 from /verif/seeded/*/meta.json.
+
+usage: seed_table.py [--design]     (--design: compact rows for DESIGN.md)"""
+import json, glob, os, sys
+DESIGN = '--design' in sys.argv
+# seeds that the quick check of their property missed when they were first evaluated, and what was added afterwards
+FIRST_MISSED = {
+    'C01-t3': 'restart-from-stage-1 scenarios (restart3 workflow); memory of the first final state a producer was observed in',
+    'C02-t1': 'line-level preemption in Controller.run/finishedCheck on the pair workflow',
+    'C02-t2': 'line-level preemption in ComponentState.finish + stall deviation',
+    'C03-s1': 'family L: two-digit replica indices (N=10..12), aggregate order',
+    'C03-s2': 'replica count through one variable name defined in several scopes',
+    'C04-s3': 'caught by the C08 history search (query on P, write to the default platform, same query), not by C04',
+    'C05-s3': 'workflows with two and three loops under every interleaving word',
+    'C06-s1': 'family prefix-names (sim / sim-post, a / aa ...)',
+    'C07-s2': 'single-file packages with a manifest (copied / linked top-level folders)',
+    'C08-s3': 'typed-value stratum (2 -> 2.0, 1 -> True), type-strict comparison',
+    'C09-s3': 'variable / array index inside the file path',
+    'C10-s1': 'family special-value (texts special to replacement machinery)',
+    'C11-s1': 'mutation classes extended (see RULE of C11)', 'C11-s2': 'mutation classes extended (see RULE of C11)',
+    'C11-s3': 'mutation classes extended (see RULE of C11)',
+    'C14-s2': 'persistent I/O errors (per operation class / all) from every log entry',
+    'C15-s2': 'mappings whose values reference sibling keys through chains of >=2 levels',
+    'C16-s1': 'bases bin/binone: executables resolved through PATH with checkExecutables=True',
+    'C16-s2': 'long files (4 KiB .. 1 MiB) changed at the last byte / byte 65536 / middle',
+    'C17-s1': 'template dx: declared+imported variables referencing each other',
+    'C19-s2': 'family weights: vectors that sum to one with 1..7 decimals, default weights for 2..8 stages',
+    'C20-s1': 'C20 parts B (transition at every call position) and C (real controller probe) did not exist yet',
+    'C20-s2': 'as C20-s1', 'C20-s3': 'as C20-s1',
+    'C12-t1': 'empty restartHookOn in the option alphabet',
+    'C12-t2': 'late restart request after the final state',
+    'C12-t3': 'slow-failing restart submission of a repeating engine',
+    'C13-t3': 'part B: producers that write output only at exit',
+}
 rows = []
 for d in sorted(glob.glob('/verif/seeded/*/meta.json')):
     m = json.load(open(d)); c = m.get('confirmed_by_lead', {})
@@ -8,11 +40,25 @@ for d in sorted(glob.glob('/verif/seeded/*/meta.json')):
     breaks = (m.get('breaks') or '').replace('|', '/').replace('\n', ' ')
     needs = (m.get('needs') or '').replace('|', '/').replace('\n', ' ')
     caught = [p for p, r in (c.get('checks') or {}).items() if r.get('caught')]
-    missed = [p for p, r in (c.get('checks') or {}).items() if not r.get('caught')]
     demo = '%s/%s' % (c.get('demo_without_change', {}).get('exit'), c.get('demo_with_change', {}).get('exit'))
     tests = ((c.get('tests_tail') or '').strip().splitlines() or ['-'])[-1]
     tests = tests.split(' in ')[0]
-    rows.append('| %s | %s | %s | %s | %s | %s |' % (sid, breaks[:230], needs[:200], demo, tests, ('caught by ' + ', '.join(caught)) if caught else 'MISSED'))
-print('| seed | what no longer holds | needs | demo exit without/with | repo tests with the change | quick check |')
-print('|---|---|---|---|---|---|')
+    verdict = ('caught by ' + ', '.join(caught)) if caught else 'MISSED'
+    if m.get('status'):
+        verdict = 'not applicable on the current tree (%s)' % m['status'].split(':')[0].lower()
+    if DESIGN:
+        why = ''
+        for p in caught:
+            w = (c['checks'][p].get('why') or [''])[0].replace('why: ', '').replace('|', '/')
+            why = w[:110]
+            break
+        rows.append('| %s | %s | %s | %s | %s |' % (sid, breaks[:170], verdict, why, FIRST_MISSED.get(sid, '')))
+    else:
+        rows.append('| %s | %s | %s | %s | %s | %s |' % (sid, breaks[:230], needs[:200], demo, tests, verdict))
+if DESIGN:
+    print('| seed | what no longer holds | quick check | first reported failure | missed at first; added |')
+    print('|---|---|---|---|---|')
+else:
+    print('| seed | what no longer holds | needs | demo exit without/with | repo tests with the change | quick check |')
+    print('|---|---|---|---|---|---|')
 print('\n'.join(rows))
